@@ -48,18 +48,19 @@ InBounds(ks, v, m) == \A i \in DOMAIN v : ks[i] = "hard" => (0 <= v[i] /\ v[i] <
 Fd == INSTANCE Fold WITH Ms <- {1}, Span <- 1, Dims <- {1}, MaxRows <- 1, Span2 <- 1,
                          pc <- "in", M <- 1, kinds <- <<"hard">>, rows <- <<>>, out <- <<>>, ok <- <<>>
 
-CONSTANTS Cases,     \* set of << M, d, alpha, e, steps >> : alpha = << <<z, weight>>, ... >> (signed increments),
-                     \*   e = table (sequence of length M^d) or << >> meaning EVERY table over Levels,
-                     \*   steps = 1: the sweep actions are enabled for this case, 0: weights only
+CONSTANTS Cases,     \* sequence of << M, d, alpha, tabs, steptabs >> :
+                     \*   alpha    = << <<z, w>>, ... >> signed increment z (cells) with integer weight w
+                     \*   tabs     = set of tables e (sequences of length M^d); {} means EVERY table over Levels
+                     \*   steptabs = the tables for which the sweep actions are enabled (transitions enumerated)
           Levels,    \* values of the table e (even integers >= 0)
           Bs,        \* set of b, beta = b/2
           Rule,      \* "intended" | "impl"
           HardMode,  \* "any" | "none" (no hard coordinate) | "some" (at least one hard coordinate)
           MaxDraws   \* bound on the number of increments drawn in one proposal (redraw loop unrolled)
 
-VARIABLES pc, M, kinds, alpha, e, b, steps, u, zs, prop, fol, ok, rc, acc, rec, row
+VARIABLES pc, ci, M, kinds, e, b, pis, mat, u, zs, prop, fol, ok, rc, acc, rec
 
-vars == <<pc, M, kinds, alpha, e, b, steps, u, zs, prop, fol, ok, rc, acc, rec, row>>
+vars == <<pc, ci, M, kinds, e, b, pis, mat, u, zs, prop, fol, ok, rc, acc, rec>>
 
 Kinds == {"hard", "periodic", "reflective"}
 
@@ -73,27 +74,28 @@ Cube(m, d) == [1..d -> Cells(m)]
 RECURSIVE Pow(_, _)
 Pow(x, n) == IF n = 0 THEN 1 ELSE x * Pow(x, n - 1)
 
-RECURSIVE IdxTo(_, _, _)
-IdxTo(v, m, i) == IF i = 0 THEN 0 ELSE ((v[i] - 1) \div 2) * Pow(m, i - 1) + IdxTo(v, m, i - 1)
-Idx(v, m) == 1 + IdxTo(v, m, Len(v))          \* linear index of a cell vector, first coordinate fastest
-
-E(tab, v, m) == tab[Idx(v, m)]
-Pi(tab, bb, v, m) == Pow(2, (bb * E(tab, v, m)) \div 2)      \* 2^(beta*e), an integer because e is even
-MinPi(tab, bb, v, w, m) == IF Pi(tab, bb, v, m) <= Pi(tab, bb, w, m) THEN Pi(tab, bb, v, m) ELSE Pi(tab, bb, w, m)
-
------------------------------------------------------------------------------
-(* Proposal law *)
-(* alpha = << <<z, w>>, ... >> : signed increment z (in cells) with integer weight w.  The law of one     *)
-(* coordinate is w/W1Tot; coordinates are independent (diagonal Cholesky factor times randn(d)); fold and  *)
-(* bounds check act coordinate-wise, so every weight below is a product over coordinates.                  *)
-
 RECURSIVE SumF(_, _)
 SumF(F(_), n) == IF n = 0 THEN 0 ELSE F(n) + SumF(F, n - 1)
 RECURSIVE ProdF(_, _)
 ProdF(F(_), n) == IF n = 0 THEN 1 ELSE F(n) * ProdF(F, n - 1)
 
+\* linear index of a cell vector (first coordinate fastest) and its inverse
+Idx(v, m) == 1 + SumF(LAMBDA i : ((v[i] - 1) \div 2) * Pow(m, i - 1), Len(v))
+CellAt(i, m, d) == [j \in 1..d |-> 2 * (((i - 1) \div Pow(m, j - 1)) % m) + 1]
+
+E(tab, v, m) == tab[Idx(v, m)]
+PiOf(tab, bb, i) == Pow(2, (bb * tab[i]) \div 2)            \* 2^(beta*e), an integer because e is even
+Min(x, y) == IF x <= y THEN x ELSE y
+
+-----------------------------------------------------------------------------
+(* Proposal law                                                                                           *)
+(* The law of one coordinate is w/W1Tot; coordinates are independent (diagonal Cholesky factor times      *)
+(* randn(d)); fold and bounds check act coordinate-wise, so every weight is a product over coordinates.   *)
+
 Symmetric(al) == \A i \in DOMAIN al : \E j \in DOMAIN al : al[j][1] = -al[i][1] /\ al[j][2] = al[i][2] /\ al[i][2] > 0
 Distinct(al) == \A i, j \in DOMAIN al : i # j => al[i][1] # al[j][1]
+ASSUME AlphabetsSymmetric == \A k \in DOMAIN Cases : Symmetric(Cases[k][3]) /\ Distinct(Cases[k][3])
+
 Incs(al, d) == [1..d -> {al[i][1] : i \in DOMAIN al}]
 
 \* unfolded proposal, folded proposal, bounds check : exactly the code's three steps
@@ -101,19 +103,25 @@ Raw(v, z) == [i \in DOMAIN v |-> v[i] + 2 * z[i]]
 Land(ks, v, z, m) == FoldVec(ks, Raw(v, z), 2 * m)
 Inside(ks, v, z, m) == InBounds(ks, Land(ks, v, z, m), 2 * m)
 
-\* one coordinate
-In1(kind, k, m) == kind = "hard" => (0 <= k /\ k <= 2 * m)
+\* one coordinate: total weight, weight landing inside, weight landing on cw
 W1Tot(al) == SumF(LAMBDA i : al[i][2], Len(al))
-W1In(kind, al, c, m) == SumF(LAMBDA i : IF In1(kind, FoldCoord(kind, c + 2 * al[i][1], 2 * m), m) THEN al[i][2] ELSE 0, Len(al))
+W1In(kind, al, c, m) ==
+    SumF(LAMBDA i : IF Inside(<<kind>>, <<c>>, <<al[i][1]>>, m) THEN al[i][2] ELSE 0, Len(al))
 Q1(kind, al, c, cw, m) ==
-    SumF(LAMBDA i : LET k == FoldCoord(kind, c + 2 * al[i][1], 2 * m)
-                    IN  IF In1(kind, k, m) /\ k = cw THEN al[i][2] ELSE 0, Len(al))
+    SumF(LAMBDA i : IF Inside(<<kind>>, <<c>>, <<al[i][1]>>, m) /\ Land(<<kind>>, <<c>>, <<al[i][1]>>, m) = <<cw>>
+                    THEN al[i][2] ELSE 0, Len(al))
 
-WTot(al, d) == ProdF(LAMBDA j : W1Tot(al), d)
-WIn(ks, al, v, m) == ProdF(LAMBDA j : W1In(ks[j], al, v[j], m), Len(v))
-QNum(ks, al, v, w, m) == ProdF(LAMBDA j : Q1(ks[j], al, v[j], w[j], m), Len(v))
+\* constant-level tables (TLC evaluates them once): per case, kind, cell, target cell
+QTab   == [k \in DOMAIN Cases |-> [kind \in Kinds |-> [c \in Cells(Cases[k][1]) |-> [cw \in Cells(Cases[k][1]) |->
+              Q1(kind, Cases[k][3], c, cw, Cases[k][1])]]]]
+WInTab == [k \in DOMAIN Cases |-> [kind \in Kinds |-> [c \in Cells(Cases[k][1]) |-> W1In(kind, Cases[k][3], c, Cases[k][1])]]]
+WTotTab == [k \in DOMAIN Cases |-> W1Tot(Cases[k][3])]
 
-\* the same weights by brute-force enumeration of increment vectors (definition; checked equal in Factorised)
+WTot(k, d) == ProdF(LAMBDA j : WTotTab[k], d)
+WIn(k, ks, v) == ProdF(LAMBDA j : WInTab[k][ks[j]][v[j]], Len(v))
+QNum(k, ks, v, w) == ProdF(LAMBDA j : QTab[k][ks[j]][v[j]][w[j]], Len(v))
+
+\* the same weight by brute-force enumeration of increment vectors (the definition; see Factorised)
 QNumDef(ks, al, v, w, m) ==
     LET S == {z \in Incs(al, Len(v)) : Inside(ks, v, z, m) /\ Land(ks, v, z, m) = w}
         WtOf(z) == ProdF(LAMBDA j : (CHOOSE a \in {al[i] : i \in DOMAIN al} : a[1] = z[j])[2], Len(v))
@@ -124,34 +132,32 @@ QNumDef(ks, al, v, w, m) ==
 \* normalisation of the proposal actually made from v:
 \*   intended: one draw, total weight (out-of-cube mass stays at v)
 \*   impl    : redraw until inside = the one-draw law conditioned on being inside
-Norm(rule, ks, al, v, m) == IF rule = "impl" THEN WIn(ks, al, v, m) ELSE WTot(al, Len(v))
+Norm(rule, k, ks, v) == IF rule = "impl" THEN WIn(k, ks, v) ELSE WTot(k, Len(v))
 
 -----------------------------------------------------------------------------
-(* Exact transition weights  P(v,w) = PNum(v,w) / PDen(v) *)
+(* Exact transition weights  P(v,w) = PNum(v,w) / PDen(v);  pp = << pi(cell 1), ..., pi(cell M^d) >> *)
 
-CellAt(i, m, d) == [j \in 1..d |-> 2 * (((i - 1) \div Pow(m, j - 1)) % m) + 1]
-
-PDen(rule, ks, al, tab, bb, v, m) == Norm(rule, ks, al, v, m) * Pi(tab, bb, v, m)
+PDen(rule, k, ks, pp, v, m) == Norm(rule, k, ks, v) * pp[Idx(v, m)]
 
 \* move v -> w (w # v): proposed with weight QNum, accepted with probability min(1, pi(w)/pi(v))
-MoveNum(ks, al, tab, bb, v, w, m) == QNum(ks, al, v, w, m) * MinPi(tab, bb, v, w, m)
+MoveNum(k, ks, pp, v, w, m) == QNum(k, ks, v, w) * Min(pp[Idx(v, m)], pp[Idx(w, m)])
 
 \* staying at v: proposing v itself, any rejected inside proposal, and (intended rule) the out-of-cube mass
-StayNum(rule, ks, al, tab, bb, v, m) ==
-      QNum(ks, al, v, v, m) * Pi(tab, bb, v, m)
-    + SumF(LAMBDA i : LET w == CellAt(i, m, Len(v))
-                      IN  IF w = v THEN 0
-                          ELSE QNum(ks, al, v, w, m) * (Pi(tab, bb, v, m) - MinPi(tab, bb, v, w, m)),
-           Pow(m, Len(v)))
-    + (IF rule = "impl" THEN 0 ELSE (WTot(al, Len(v)) - WIn(ks, al, v, m)) * Pi(tab, bb, v, m))
+StayNum(rule, k, ks, pp, v, m) ==
+    LET pv == pp[Idx(v, m)] IN
+      QNum(k, ks, v, v) * pv
+    + SumF(LAMBDA i : IF i = Idx(v, m) THEN 0
+                      ELSE QNum(k, ks, v, CellAt(i, m, Len(v))) * (pv - Min(pv, pp[i])), Len(pp))
+    + (IF rule = "impl" THEN 0 ELSE (WTot(k, Len(v)) - WIn(k, ks, v)) * pv)
 
-PNum(rule, ks, al, tab, bb, v, w, m) ==
-    IF w = v THEN StayNum(rule, ks, al, tab, bb, v, m) ELSE MoveNum(ks, al, tab, bb, v, w, m)
+PNum(rule, k, ks, pp, v, w, m) ==
+    IF w = v THEN StayNum(rule, k, ks, pp, v, m) ELSE MoveNum(k, ks, pp, v, w, m)
 
-\* the row of P at v in Idx order : << den, << num_1, ..., num_(M^d) >> >>
-RowOf(rule, ks, al, tab, bb, v, m) ==
-    << PDen(rule, ks, al, tab, bb, v, m),
-       [i \in 1..Pow(m, Len(v)) |-> PNum(rule, ks, al, tab, bb, v, CellAt(i, m, Len(v)), m)] >>
+\* the matrix in Idx order : row i = << den_i, << num_i1, ..., num_iN >> >>
+MatOf(rule, k, ks, pp, m) ==
+    [i \in 1..Len(pp) |->
+        LET v == CellAt(i, m, Len(ks)) IN
+        << PDen(rule, k, ks, pp, v, m), [j \in 1..Len(pp) |-> PNum(rule, k, ks, pp, v, CellAt(j, m, Len(ks)), m)] >>]
 
 -----------------------------------------------------------------------------
 (* The sweep of one walker *)
@@ -165,102 +171,105 @@ HardOK(ks) == CASE HardMode = "any"  -> TRUE
                 [] HardMode = "none" -> \A i \in DOMAIN ks : ks[i] # "hard"
                 [] HardMode = "some" -> \E i \in DOMAIN ks : ks[i] = "hard"
 
+Alpha == Cases[ci][3]
+Tabs(k) == IF Cases[k][4] = {} THEN [1..Pow(Cases[k][1], Cases[k][2]) -> Levels] ELSE Cases[k][4]
+
 Init ==
     /\ pc = "init"
-    /\ \E c \in Cases :
-         /\ M = c[1]
-         /\ alpha = c[3]
-         /\ steps = c[5]
-         /\ kinds \in [1..c[2] -> Kinds]
-         /\ HardOK(kinds)
-         /\ e \in (IF c[4] = <<>> THEN [1..Pow(c[1], c[2]) -> Levels] ELSE {c[4]})
-         /\ u \in Cube(c[1], c[2])
+    /\ ci \in DOMAIN Cases
+    /\ M = Cases[ci][1]
+    /\ kinds \in [1..Cases[ci][2] -> Kinds]
+    /\ HardOK(kinds)
+    /\ e \in Tabs(ci)
     /\ b \in Bs
+    /\ pis = <<>> /\ mat = <<>> /\ u = <<>>
     /\ zs = <<>> /\ prop = <<>> /\ fol = <<>> /\ ok = FALSE /\ rc = "none" /\ acc = FALSE /\ rec = <<>>
-    /\ row = <<>>
 
-\* not a step of the code: tabulate the row of P at u (done in an action so that TLC's workers share the
-\* evaluation of the weight invariants, which are all stated at pc = "start")
+\* not a step of the code: tabulate the target and the transition matrix (the weight properties are stated here)
 Weights ==
     /\ pc = "init"
-    /\ row' = RowOf(Rule, kinds, alpha, e, b, u, M)
+    /\ pis' = [i \in 1..Len(e) |-> PiOf(e, b, i)]
+    /\ mat' = MatOf(Rule, ci, kinds, pis', M)
+    /\ pc' = "weights"
+    /\ UNCHANGED <<ci, M, kinds, e, b, u, zs, prop, fol, ok, rc, acc, rec>>
+
+\* the walker's current state (a particle of the batch handed to the runner)
+Walker ==
+    /\ pc = "weights" /\ e \in Cases[ci][5] /\ MaxDraws >= 1
+    /\ u' \in Cube(M, D)
+    /\ mat' = <<>>
     /\ pc' = "start"
-    /\ UNCHANGED <<M, kinds, alpha, e, b, steps, u, zs, prop, fol, ok, rc, acc, rec>>
+    /\ UNCHANGED <<ci, M, kinds, e, b, pis, zs, prop, fol, ok, rc, acc, rec>>
 
 \* proposal = u + sigma * chol @ randn  (first draw)
-Propose(z) ==
-    /\ pc = "start" /\ steps = 1 /\ MaxDraws >= 1
-    /\ zs' = <<z>>
-    /\ prop' = Raw(u, z)
+Propose ==
+    /\ pc = "start"
+    /\ \E z \in Incs(Alpha, D) :
+         /\ zs' = <<z>>
+         /\ prop' = Raw(u, z)
     /\ pc' = "proposed"
-    /\ row' = <<>>
-    /\ UNCHANGED <<M, kinds, alpha, e, b, steps, u, fol, ok, rc, acc, rec>>
+    /\ UNCHANGED <<ci, M, kinds, e, b, pis, mat, u, fol, ok, rc, acc, rec>>
 
 \* apply_boundary_conditions
 Fold ==
     /\ pc = "proposed"
     /\ fol' = FoldVec(kinds, prop, 2 * M)
     /\ pc' = "folded"
-    /\ UNCHANGED <<M, kinds, alpha, e, b, steps, u, zs, prop, ok, rc, acc, rec, row>>
+    /\ UNCHANGED <<ci, M, kinds, e, b, pis, mat, u, zs, prop, ok, rc, acc, rec>>
 
 \* check_bounds
 Check ==
     /\ pc = "folded"
     /\ ok' = InBounds(kinds, fol, 2 * M)
     /\ pc' = "checked"
-    /\ UNCHANGED <<M, kinds, alpha, e, b, steps, u, zs, prop, fol, rc, acc, rec, row>>
+    /\ UNCHANGED <<ci, M, kinds, e, b, pis, mat, u, zs, prop, fol, rc, acc, rec>>
 
-\* code-shaped hard-wall rule: `while True:` draws a fresh increment from the CURRENT state
-Impl_RedrawUntilInside(z) ==
+\* code-shaped hard-wall rule: `while True:` draws a FRESH increment from the CURRENT state
+Impl_RedrawUntilInside ==
     /\ pc = "checked" /\ ~ok /\ Rule = "impl"
     /\ Len(zs) < MaxDraws
-    /\ zs' = Append(zs, z)
-    /\ prop' = Raw(u, z)
+    /\ \E z \in Incs(Alpha, D) :
+         /\ zs' = Append(zs, z)
+         /\ prop' = Raw(u, z)
     /\ pc' = "proposed"
-    /\ UNCHANGED <<M, kinds, alpha, e, b, steps, u, fol, ok, rc, acc, rec, row>>
+    /\ UNCHANGED <<ci, M, kinds, e, b, pis, mat, u, fol, ok, rc, acc, rec>>
 
 RecordOf(v) == <<v, E(e, v, M), Idx(v, M)>>     \* (u = x, logl table value, blob tag) move together
+PiAt(v) == pis[Idx(v, M)]
 
-\* intended hard-wall rule: the out-of-cube proposal is rejected whatever the accept uniform is,
-\* and the likelihood is not needed
-OutReject(r) ==
+\* intended hard-wall rule: the out-of-cube proposal is rejected whatever the accept uniform is
+OutReject ==
     /\ pc = "checked" /\ ~ok /\ Rule = "intended"
-    /\ r \in {"zero", "low", "top"}
-    /\ rc' = r /\ acc' = FALSE
+    /\ rc' \in {"zero", "low", "top"}
+    /\ acc' = FALSE
     /\ rec' = RecordOf(u)
     /\ pc' = "done"
-    /\ UNCHANGED <<M, kinds, alpha, e, b, steps, u, zs, prop, fol, ok, row>>
+    /\ UNCHANGED <<ci, M, kinds, e, b, pis, mat, u, zs, prop, fol, ok>>
 
 \* alpha = min(1, exp(beta*(logl' - logl)));  mask = r < alpha
 Accepts(r, v) ==
-    \/ r \in {"zero", "low"}                               \* 0 < alpha always
-    \/ r = "top" /\ Pi(e, b, v, M) >= Pi(e, b, u, M)       \* alpha = 1
+    \/ r \in {"zero", "low"}                 \* 0 < alpha always
+    \/ r = "top" /\ PiAt(v) >= PiAt(u)       \* alpha = 1
 
-Accept(r) ==
+Accept ==
     /\ pc = "checked" /\ ok
-    /\ r \in RClasses /\ (r = "high" => Pi(e, b, fol, M) < Pi(e, b, u, M))
-    /\ Accepts(r, fol)
-    /\ rc' = r /\ acc' = TRUE
+    /\ rc' \in RClasses /\ (rc' = "high" => PiAt(fol) < PiAt(u))
+    /\ Accepts(rc', fol)
+    /\ acc' = TRUE
     /\ rec' = RecordOf(fol)
     /\ pc' = "done"
-    /\ UNCHANGED <<M, kinds, alpha, e, b, steps, u, zs, prop, fol, ok, row>>
+    /\ UNCHANGED <<ci, M, kinds, e, b, pis, mat, u, zs, prop, fol, ok>>
 
-Reject(r) ==
+Reject ==
     /\ pc = "checked" /\ ok
-    /\ r \in RClasses /\ (r = "high" => Pi(e, b, fol, M) < Pi(e, b, u, M))
-    /\ ~Accepts(r, fol)
-    /\ rc' = r /\ acc' = FALSE
+    /\ rc' \in RClasses /\ (rc' = "high" => PiAt(fol) < PiAt(u))
+    /\ ~Accepts(rc', fol)
+    /\ acc' = FALSE
     /\ rec' = RecordOf(u)
     /\ pc' = "done"
-    /\ UNCHANGED <<M, kinds, alpha, e, b, steps, u, zs, prop, fol, ok, row>>
+    /\ UNCHANGED <<ci, M, kinds, e, b, pis, mat, u, zs, prop, fol, ok>>
 
-Next ==
-    \/ Weights
-    \/ \E z \in Incs(alpha, D) : Propose(z)
-    \/ Fold
-    \/ Check
-    \/ \E z \in Incs(alpha, D) : Impl_RedrawUntilInside(z)
-    \/ \E r \in RClasses : OutReject(r) \/ Accept(r) \/ Reject(r)
+Next == Weights \/ Walker \/ Propose \/ Fold \/ Check \/ Impl_RedrawUntilInside \/ OutReject \/ Accept \/ Reject
 
 Spec == Init /\ [][Next]_vars
 
@@ -268,44 +277,35 @@ Spec == Init /\ [][Next]_vars
 (* Properties (C03 a) *)
 
 TypeOK ==
-    /\ pc \in {"init", "start", "proposed", "folded", "checked", "done"}
-    /\ u \in Cube(M, D)
+    /\ pc \in {"init", "weights", "start", "proposed", "folded", "checked", "done"}
     /\ b \in Bs
+    /\ Len(e) = Pow(M, D)
+    /\ \A i \in DOMAIN e : e[i] % 2 = 0 /\ e[i] >= 0
     /\ Rule \in {"intended", "impl"}
-    /\ Symmetric(alpha) /\ Distinct(alpha)
+    /\ pc \notin {"init", "weights"} => u \in Cube(M, D)
 
-\* the copied boundary operators are Fold.tla's
-FoldOpsAgree ==
-    pc = "start" => \A k \in (-6 * M)..(6 * M) : \A kind \in Kinds :
-        /\ FoldCoord(kind, k, 2 * M) = Fd!FoldCoord(kind, k, 2 * M)
-        /\ InBounds(<<kind>>, <<k>>, 2 * M) = Fd!InBounds(<<kind>>, <<k>>, 2 * M)
+N == Len(pis)
 
-\* the product form of the proposal weights is the brute-force sum over increment vectors
-Factorised ==
-    pc = "start" => \A v \in Cube(M, D) : QNum(kinds, alpha, u, v, M) = QNumDef(kinds, alpha, u, v, M)
-
-\* pi(u) P(u,v) = pi(v) P(v,u) for every v  (u ranges over the cube in Init: every ordered pair)
+\* pi(u) P(u,v) = pi(v) P(v,u) for every ordered pair of lattice states
 DetailedBalance ==
-    pc = "start" =>
-      \A v \in Cube(M, D) :
-          Pi(e, b, u, M) * PNum(Rule, kinds, alpha, e, b, u, v, M) * PDen(Rule, kinds, alpha, e, b, v, M)
-        = Pi(e, b, v, M) * PNum(Rule, kinds, alpha, e, b, v, u, M) * PDen(Rule, kinds, alpha, e, b, u, M)
+    pc = "weights" =>
+      \A i, j \in 1..N : pis[i] * mat[i][2][j] * mat[j][1] = pis[j] * mat[j][2][i] * mat[i][1]
 
-\* the weights of a row add up to the denominator: all proposal mass is accounted for inside the cube
+\* the weights of every row add up to its denominator: all proposal mass is accounted for inside the cube
 RowStochastic ==
-    pc = "start" =>
-      /\ row[1] > 0
-      /\ \A i \in DOMAIN row[2] : row[2][i] >= 0
-      /\ SumF(LAMBDA i : row[2][i], Len(row[2])) = row[1]
+    pc = "weights" =>
+      \A i \in 1..N : /\ mat[i][1] > 0
+                      /\ \A j \in 1..N : mat[i][2][j] >= 0
+                      /\ SumF(LAMBDA j : mat[i][2][j], N) = mat[i][1]
 
-\* an accepted / checked-inside proposal is a lattice point of the cube, and so is the successor
+\* a checked-inside proposal is a lattice point of the cube, and so is the successor
 NeverLeaves ==
     /\ (pc = "checked" /\ ok) => fol \in Cube(M, D)
     /\ pc = "done" => rec[1] \in Cube(M, D)
 
-\* every move the sweep can make has positive weight in P, with the right proposal weight
+\* every move the sweep can make has positive weight in P
 StepInSupport ==
-    (pc = "done" /\ rec[1] # u) => PNum(Rule, kinds, alpha, e, b, u, rec[1], M) > 0
+    (pc = "done" /\ rec[1] # u) => PNum(Rule, ci, kinds, pis, u, rec[1], M) > 0
 
 \* the whole record moves: stored log-likelihood and blob are those of the stored point
 RecordCoherent ==
@@ -317,5 +317,15 @@ RecordCoherent ==
 DrawCount ==
     /\ Rule = "intended" => Len(zs) <= 1
     /\ (pc = "done" /\ Rule = "impl") => ok
+
+\* the product form of the proposal weights is the brute-force sum over increment vectors
+Factorised ==
+    (pc = "weights" /\ b = (CHOOSE x \in Bs : TRUE) /\ e = (CHOOSE t \in Tabs(ci) : TRUE)) => \A v, w \in Cube(M, D) : QNum(ci, kinds, v, w) = QNumDef(kinds, Alpha, v, w, M)
+
+\* the copied boundary operators are Fold.tla's
+FoldOpsAgree ==
+    pc = "init" => \A k \in (-6 * M)..(6 * M) : \A kind \in Kinds :
+        /\ FoldCoord(kind, k, 2 * M) = Fd!FoldCoord(kind, k, 2 * M)
+        /\ InBounds(<<kind>>, <<k>>, 2 * M) = Fd!InBounds(<<kind>>, <<k>>, 2 * M)
 
 =============================================================================
